@@ -1042,7 +1042,7 @@ func checkPrimitiveDecodersJudgeFramingOnly(w *core.World, r *core.Report, rule 
 				strings.HasPrefix(name, "logging."), strings.Contains(name, "logging.Logger"), strings.HasPrefix(name, "dynamic:logging"):
 				continue
 			}
-			if g := core.StaticCallee(c); g != nil && core.PkgOf(g) == "vm" && primitiveKind(g) != "" {
+			if g := core.StaticCallee(c); g != nil && core.PkgOf(g) == "vm" && (primitiveKind(g) != "" || framingOnlyHelper(g, 2)) {
 				continue
 			}
 			bad = fmt.Sprintf("calls %s at %s", name, w.Pos(c.Pos()))
@@ -1052,4 +1052,411 @@ func checkPrimitiveDecodersJudgeFramingOnly(w *core.World, r *core.Report, rule 
 			"the decoder judges the content of an operand: bytes the encoder writes (a label that is not well-formed UTF-8, a binary selector, a symbol cut at the 255-byte limit) are refused by every Parse* function, the VM and the disassembler - encoder and decoder no longer agree on the operand domain: "+bad)
 	}
 	r.Floor(rule, "primitive decoders", n, 2)
+}
+
+// checkNoNestedLockAcquisition (C19 R8): "independent sessions can be served concurrently" also fails
+// when sessions block each other for good. The library holds no locks today; where a change guards
+// shared state with a mutex, the classic way to wedge every session is to acquire the same lock
+// again while it is held - sync.Mutex deadlocks at once, and a second RLock of a sync.RWMutex
+// deadlocks as soon as another goroutine asks for the write lock in between (Go's RWMutex is not
+// re-entrant). Decided on the call graph: for every Lock/RLock of a package-level sync.Mutex /
+// sync.RWMutex (or a field of a package-level variable) in a library function, no call made while
+// the lock is held - up to the first non-deferred Unlock/RUnlock of it, or the function's return
+// when the release is deferred - reaches (static and interface calls inside the library) another
+// acquisition of the same lock.
+func checkNoNestedLockAcquisition(w *core.World, r *core.Report, rule string) {
+	lockOf := func(c ssa.CallInstruction) (*ssa.Global, string) {
+		name := core.CallName(c)
+		var kind string
+		switch name {
+		case "sync.(*Mutex).Lock", "sync.(*RWMutex).Lock", "sync.(*RWMutex).RLock":
+			kind = "acquire"
+		case "sync.(*Mutex).Unlock", "sync.(*RWMutex).Unlock", "sync.(*RWMutex).RUnlock":
+			kind = "release"
+		default:
+			return nil, ""
+		}
+		args := core.CallArgs(c)
+		if len(args) == 0 {
+			return nil, ""
+		}
+		return core.GlobalOf(args[0]), kind
+	}
+	acquires := map[*ssa.Function]map[*ssa.Global]bool{}
+	nlocks := 0
+	for _, fn := range w.LibFuncs {
+		for _, c := range core.Calls(fn) {
+			if g, kind := lockOf(c); g != nil && kind == "acquire" {
+				if acquires[fn] == nil {
+					acquires[fn] = map[*ssa.Global]bool{}
+				}
+				acquires[fn][g] = true
+				nlocks++
+			}
+		}
+	}
+	nbad := 0
+	for fn, gs := range acquires {
+		for _, c := range core.Calls(fn) {
+			g, kind := lockOf(c)
+			if g == nil || kind != "acquire" || !gs[g] {
+				continue
+			}
+			if _, isDefer := c.(*ssa.Defer); isDefer {
+				continue
+			}
+			release := core.NewCut()
+			for _, c2 := range core.Calls(fn) {
+				if g2, k2 := lockOf(c2); g2 == g && k2 == "release" {
+					if _, isDefer := c2.(*ssa.Defer); !isDefer {
+						release.AddInstr(c2.(ssa.Instruction))
+					}
+				}
+			}
+			bad := ""
+			var badPos token.Pos
+			core.Reach(core.After(c.(ssa.Instruction)), func(in ssa.Instruction) bool {
+				c3, ok := in.(ssa.CallInstruction)
+				if !ok || bad != "" {
+					return false
+				}
+				if _, isDefer := c3.(*ssa.Defer); isDefer {
+					return false
+				}
+				if g3, k3 := lockOf(c3); g3 == g && k3 == "acquire" {
+					bad = fmt.Sprintf("acquired again at %s", w.Pos(c3.Pos()))
+					badPos = c3.Pos()
+					return false
+				}
+				var roots []*ssa.Function
+				for _, callee := range w.Callees(c3) {
+					if w.InLib(callee) {
+						roots = append(roots, callee)
+					}
+				}
+				if len(roots) == 0 {
+					return false
+				}
+				sub, _ := reachable(w, roots)
+				for f2 := range sub {
+					if acquires[f2][g] {
+						bad = fmt.Sprintf("the call at %s reaches %s, which acquires it again", w.Pos(c3.Pos()), core.QName(f2))
+						badPos = c3.Pos()
+						return false
+					}
+				}
+				return false
+			}, release)
+			r.Touch(core.QName(fn))
+			if bad != "" {
+				nbad++
+			}
+			r.Check(bad == "", rule, fmt.Sprintf("%s: %s held", core.QName(fn), g.Name()), badPos, "no call made while the lock is held reaches another acquisition of it",
+				"a lock on process-wide state is acquired again while it is held: a sync.Mutex deadlocks at once, a read lock taken twice deadlocks as soon as another session asks for the write lock in between - from then on every session that needs the lock hangs: "+g.Name()+" "+bad)
+		}
+	}
+	r.OK(rule, "locks on package-level state in the library", token.NoPos, fmt.Sprintf("%d acquisition site(s) examined, %d nested", nlocks, nbad))
+}
+
+// framingOnlyHelper: a helper of package vm that itself calls nothing but builtins, error
+// constructors, encoding/binary, logging and helpers of the same kind (a length test moved out of
+// the decoder).
+func framingOnlyHelper(g *ssa.Function, depth int) bool {
+	if len(g.Blocks) == 0 || depth < 0 {
+		return false
+	}
+	for _, c := range core.Calls(g) {
+		if _, ok := c.Common().Value.(*ssa.Builtin); ok {
+			continue
+		}
+		name := core.CallName(c)
+		switch {
+		case strings.HasPrefix(name, "fmt."), strings.HasPrefix(name, "errors."), strings.HasPrefix(name, "encoding/binary."),
+			strings.HasPrefix(name, "logging."), strings.Contains(name, "logging.Logger"), strings.HasPrefix(name, "dynamic:logging"):
+			continue
+		}
+		if h := core.StaticCallee(c); h != nil && core.PkgOf(h) == "vm" && framingOnlyHelper(h, depth-1) {
+			continue
+		}
+		return false
+	}
+	return true
+}
+
+// checkDecodersWriteNoGlobals (C15 R13): decoding is a pure function of the bytes. A decoder that
+// writes process-wide state (an interning table, a statistics counter, a memo) can be crashed by
+// bytes alone once two sessions decode at the same time - "fatal error: concurrent map writes" is
+// not recoverable - and a memo keyed by content makes the verdict on one byte string depend on
+// what was decoded before. No function reachable from the Parse* functions of package vm stores to
+// a package-level variable of the library or updates a map or element reached through one.
+func checkDecodersWriteNoGlobals(w *core.World, r *core.Report, rule string) {
+	var roots []*ssa.Function
+	for _, fn := range w.FuncsIn("vm") {
+		if fn.Signature.Recv() == nil && strings.HasPrefix(fn.Name(), "Parse") && fn.Object() != nil && fn.Object().Exported() {
+			roots = append(roots, fn)
+		}
+	}
+	if ph := w.Func("vm", "(*ParseHandler).ParseAll"); ph != nil {
+		roots = append(roots, ph)
+	}
+	reach, pred := reachable(w, roots)
+	bad := ""
+	var badPos token.Pos
+	n := 0
+	for fn := range reach {
+		if !w.InLib(fn) {
+			continue
+		}
+		n++
+		for _, in := range allInstrs(fn) {
+			var g *ssa.Global
+			switch t := in.(type) {
+			case *ssa.Store:
+				g = core.GlobalOf(t.Addr)
+				if g == nil {
+					if ia, ok := t.Addr.(*ssa.IndexAddr); ok {
+						g = core.GlobalOf(ia.X)
+					}
+					if fa, ok := t.Addr.(*ssa.FieldAddr); ok {
+						g = core.GlobalOf(fa.X)
+					}
+				}
+			case *ssa.MapUpdate:
+				g = core.GlobalOf(t.Map)
+			}
+			if g != nil && g.Pkg != nil && w.InLib(fn) && strings.HasPrefix(g.Pkg.Pkg.Path(), core.ModPath) && fn.Name() != "init" {
+				bad = fmt.Sprintf("%s writes %s at %s (%s)", core.QName(fn), g.Name(), w.Pos(in.Pos()), callPath(w, pred, fn))
+				badPos = in.Pos()
+			}
+		}
+	}
+	r.Check(bad == "", rule, "bytecode decoders write no package-level state", badPos, fmt.Sprintf("%d library functions reachable from %d decoder entry points, none writes a package-level variable", n, len(roots)),
+		"decoding writes process-wide state: two sessions decoding at the same time can abort the process on bytes alone (concurrent map write), and what one byte string decodes to can depend on what was decoded before: "+bad)
+	r.Floor(rule, "decoder entry points", len(roots), 10)
+}
+
+// checkHookContinuesOnlyUnblocked (C20 R12, C06 R13): the pre-VM hook cleans up after itself with a
+// deferred ResetFlag(TERMINATE) (an open finding of its own). A terminated session nevertheless
+// stays blocked across a request because the hook then answers "do not continue": the engine is not
+// marked initialised and Finish stores nothing. So once that deferred reset is registered, the hook
+// may answer "continue" only where TERMINATE was tested unset: every place where true becomes the
+// hook's first result is, on every path from the registration, behind the TERMINATE-unset edge.
+func checkHookContinuesOnlyUnblocked(w *core.World, r *core.Report, rule string, fTerm int64) {
+	er := resolveEngineRoles(w)
+	hook := er.PreVmHook
+	if hook == nil {
+		r.Undecided(rule, "engine pre-VM hook", token.NoPos, "role not resolved")
+		return
+	}
+	r.Touch(core.QName(hook))
+	var defers []ssa.Instruction
+	for _, c := range flagConstCalls(hook, fTerm, stResetFlag) {
+		if d, ok := c.(*ssa.Defer); ok {
+			defers = append(defers, d)
+		}
+	}
+	if len(defers) == 0 {
+		r.OK(rule, "engine pre-VM hook: no deferred reset of TERMINATE", hook.Pos(), "nothing to guard")
+		return
+	}
+	// the points where true becomes the first result
+	points := map[ssa.Instruction]bool{}
+	isTrue := func(v ssa.Value) bool {
+		c, ok := v.(*ssa.Const)
+		return ok && c.Value != nil && c.Value.String() == "true"
+	}
+	seen := map[ssa.Value]bool{}
+	var collect func(v ssa.Value, at ssa.Instruction)
+	collect = func(v ssa.Value, at ssa.Instruction) {
+		if v == nil || seen[v] && !isTrue(v) {
+			return
+		}
+		seen[v] = true
+		switch t := v.(type) {
+		case *ssa.Const:
+			if isTrue(t) && at != nil {
+				points[at] = true
+			}
+		case *ssa.Phi:
+			for i, e := range t.Edges {
+				pb := t.Block().Preds[i]
+				collect(e, pb.Instrs[len(pb.Instrs)-1])
+			}
+		case *ssa.UnOp:
+			if a, ok := t.X.(*ssa.Alloc); ok && t.Op == token.MUL {
+				if refs := a.Referrers(); refs != nil {
+					for _, u := range *refs {
+						if st, ok := u.(*ssa.Store); ok && st.Addr == ssa.Value(a) {
+							collect(st.Val, st)
+						}
+					}
+				}
+			}
+		}
+	}
+	for _, in := range allInstrs(hook) {
+		if ret, ok := in.(*ssa.Return); ok && len(ret.Results) > 0 {
+			collect(core.ReturnValue(ret, 0), ret)
+		}
+	}
+	unset, tests := flagTestEdges(hook, fTerm, false)
+	cut := core.NewCut().AddEdge(unset...)
+	bad := ""
+	var badPos token.Pos
+	for _, d := range defers {
+		hit, path := core.Reach(core.After(d), func(in ssa.Instruction) bool { return points[in] }, cut)
+		if hit != nil {
+			bad = fmt.Sprintf("'continue' at %s is reached from the deferred reset at %s without passing a TERMINATE-unset edge: %s", w.Pos(hit.Pos()), w.Pos(d.Pos()), w.PathString(path))
+			badPos = hit.Pos()
+		}
+	}
+	r.Check(bad == "" && len(tests) > 0 && len(points) > 0, rule, "engine pre-VM hook: answers 'continue' only where TERMINATE was tested unset", badPos,
+		fmt.Sprintf("%d place(s) set the result true, all behind the TERMINATE-unset edge once the deferred reset is registered", len(points)),
+		"the hook clears TERMINATE on its way out and still tells the engine to go on: a terminated session is initialised, run and saved without the flag - the block is lifted by the library, not by client code: "+bad)
+}
+
+// checkRenderConsumesDirty (C20 R13): a terminated session is silent - "no output, nothing runs" -
+// because the request that terminated it consumed DIRTY when it was flushed and Vm.Run refuses to
+// raise it again while TERMINATE is set. That only holds if Vm.Render consumes DIRTY whether or not
+// the render succeeds: a render that fails on the terminating request would otherwise leave DIRTY
+// in the saved state, and every later blocked request renders again. Every return of Vm.Render,
+// error returns included, passes a constant ResetFlag(FLAG_DIRTY).
+func checkRenderConsumesDirty(w *core.World, r *core.Report, rule string, fDirty int64) {
+	render := anchor(w, r, "vm", "(*Vm).Render")
+	if render == nil {
+		return
+	}
+	cut := cutWithHelpers(w, render, func(fn *ssa.Function, cut *core.Cut) {
+		for _, c := range flagConstCalls(fn, fDirty, stResetFlag) {
+			if _, isDefer := c.(*ssa.Defer); !isDefer {
+				cut.AddInstr(c.(ssa.Instruction))
+			}
+		}
+	}, 1)
+	deferred := false
+	for _, c := range flagConstCalls(render, fDirty, stResetFlag) {
+		if _, isDefer := c.(*ssa.Defer); isDefer {
+			deferred = true
+		}
+	}
+	unsetEdges, _ := flagTestEdges(render, fDirty, false)
+	cut.AddEdge(unsetEdges...) // nothing to consume where DIRTY was tested unset
+	hit, path := core.Reach(core.Entry(render), core.IsReturn, cut)
+	if deferred {
+		hit = nil
+	}
+	var pos token.Pos
+	if hit != nil {
+		pos = hit.Pos()
+	}
+	r.Check(hit == nil, rule, "vm.(*Vm).Render: DIRTY is consumed on every path", pos, "every return passes ResetFlag(FLAG_DIRTY)",
+		"a render that fails leaves DIRTY set: when that happens on the request that terminated the session the flag is saved with TERMINATE, and every later blocked request renders the node again - output although nothing ran: "+w.PathString(path))
+}
+
+// checkInjectionDependsOnSessionLanguageOnly (C18 R11): the engine puts the session's language on
+// the context it hands to the VM and the renderer whenever the session has one. Nothing else may
+// decide: in particular not whether the caller's context already carries a language (a host
+// default) - the selected language has to replace it. In every function of package engine that
+// injects (context.WithValue with key "Language"), from the 'State.Language is set' edge every path
+// reaches the injection before it reaches any call other than logging, or a return.
+func checkInjectionDependsOnSessionLanguageOnly(w *core.World, r *core.Report, rule string) {
+	n := 0
+	for _, fn := range w.FuncsIn("engine") {
+		var inj []ssa.Instruction
+		for _, c := range core.CallsTo(fn, "context.WithValue") {
+			args := core.CallArgs(c)
+			if len(args) == 3 {
+				if mi, ok := args[1].(*ssa.MakeInterface); ok {
+					if s, ok := core.ConstString(mi.X); ok && s == "Language" {
+						inj = append(inj, c.(ssa.Instruction))
+					}
+				}
+			}
+		}
+		if len(inj) == 0 {
+			continue
+		}
+		r.Touch(core.QName(fn))
+		cut := core.NewCut().AddInstr(inj...)
+		for _, in := range allInstrs(fn) {
+			v, ok := in.(ssa.Value)
+			if !ok {
+				continue
+			}
+			if tn, f, ok := core.LoadedField(v); !ok || tn != "state.State" || f != "Language" {
+				continue
+			}
+			for _, ce := range core.NilTestEdges(v) {
+				if ce.Val {
+					continue // the 'no language' edge
+				}
+				n++
+				hit, path := core.ReachEdge(ce.E, func(x ssa.Instruction) bool {
+					if _, ok := x.(*ssa.Return); ok {
+						return true
+					}
+					c, ok := x.(ssa.CallInstruction)
+					if !ok {
+						return false
+					}
+					if _, isB := c.Common().Value.(*ssa.Builtin); isB {
+						return false
+					}
+					name := core.CallName(c)
+					return !strings.Contains(name, "logging")
+				}, cut)
+				var pos token.Pos
+				detail := ""
+				if hit != nil {
+					pos = hit.Pos()
+					detail = fmt.Sprintf("%s at %s is reached first: %s", instrDesc(hit), w.Pos(hit.Pos()), w.PathString(path))
+				}
+				key := fmt.Sprintf("%s: injection follows the 'language set' edge", core.QName(fn))
+				if n > 1 {
+					key = fmt.Sprintf("%s #%d", key, n)
+				}
+				r.Check(hit == nil, rule, key, pos, "nothing but logging between the test and context.WithValue",
+					"something other than the session's language decides whether it is put on the context: where the caller's context already carries a language (a host default) the selected language does not replace it, and templates, menus and external code are looked up in the wrong language: "+detail)
+			}
+		}
+	}
+	r.Floor(rule, "'language set' edges in injecting functions of package engine", n, 1)
+}
+
+func instrDesc(in ssa.Instruction) string {
+	if c, ok := in.(ssa.CallInstruction); ok {
+		return "the call of " + core.CallName(c)
+	}
+	if _, ok := in.(*ssa.Return); ok {
+		return "a return"
+	}
+	return fmt.Sprintf("%T", in)
+}
+
+// checkSetLanguageAlwaysSets (C18 R12): a language switch the application asked for (LANG flag and a
+// code as content) must take effect or be refused - never be acknowledged and dropped. Every success
+// return of State.SetLanguage passes a store to State.Language: no shortcut ("looks like the current
+// language already") answers for the resolution of the code.
+func checkSetLanguageAlwaysSets(w *core.World, r *core.Report, rule string) {
+	fn := anchor(w, r, "state", "(*State).SetLanguage")
+	if fn == nil {
+		return
+	}
+	cut := core.NewCut()
+	n := 0
+	for _, in := range allInstrs(fn) {
+		if st, ok := in.(*ssa.Store); ok {
+			if tn, f, ok := core.FieldOfAddr(st.Addr); ok && tn == "state.State" && f == "Language" {
+				cut.AddInstr(st)
+				n++
+			}
+		}
+	}
+	hit, path := core.Reach(core.Entry(fn), isSuccessReturnPred(fn), cut)
+	var pos token.Pos
+	if hit != nil {
+		pos = hit.Pos()
+	}
+	r.Check(hit == nil && n > 0, rule, "state.(*State).SetLanguage: success means the language was stored", pos, fmt.Sprintf("every success return passes one of %d store(s) to State.Language", n),
+		"SetLanguage can report success without storing a language: a switch is acknowledged and dropped (a two-letter code that is a prefix of the current three-letter code, say), and every later lookup and the saved session stay in the old language: "+w.PathString(path))
 }
